@@ -416,22 +416,23 @@ theorem C02_coverage_cost (b : Bytes) (pos : Nat) :
 theorem C02_classdef_no_panic (b : Bytes) (pos : Nat) : (Total.Otl.classdefRead b pos).noPanic :=
   Total.Otl.classdefRead_noPanic b pos
 
-/-- The TRUE cost of `classdef.Read`: (number of ranges) × 65536 in format 2. -/
-theorem C02_classdef_cost_partial (b : Bytes) (pos : Nat) (r : List (Nat × Nat)) (c : Cost)
-    (h : Total.Otl.classdefRead b pos = .ok (r, c)) :
-    c.steps ≤ b.length / 6 * 65537 + b.length / 2 + 2 ∧ c.alloc ≤ b.length / 6 * 65536 + b.length / 2 + 1 :=
+/-- `classdef.Read` (as repaired by 92dc1a2: format 2 ranges with end < start are refused): linear
+plus the constant cap of 65536 entries. -/
+theorem C02_classdef_cost (b : Bytes) (pos : Nat) (r : List (Nat × Nat)) (c : Cost)
+    (h : Total.Otl.classdefRead b pos = .ok (r, c)) : c.steps ≤ b.length / 2 + 65538 ∧ c.alloc ≤ 65537 :=
   Total.Otl.classdefRead_cost b pos r c h
 
-/-- Finding #36 as a theorem: ranges with end < start lower `prevEnd`, so the pair
-(1..65534),(65535..0) may repeat: `12·n + 4` bytes cost `2 + n·65536` steps. -/
-theorem C02_classdef_cost_fails :
-    ¬ ∀ b pos r c, Total.Otl.classdefRead b pos = .ok (r, c) → c.steps ≤ 2000 * b.length + 2000 :=
-  Total.Otl.classdefRead_not_linear
+/-- Finding #36 about the code BEFORE the repair (`classdefReadOld`): ranges with end < start lowered
+`prevEnd`, so the pair (1..65534),(65535..0) could repeat: `12·n + 4` bytes cost `2 + n·65536` steps. -/
+theorem C02_classdef_unrepaired_cost_fails :
+    ¬ ∀ b pos r c, Total.Otl.classdefReadOld b pos = .ok (r, c) → c.steps ≤ 2000 * b.length + 2000 :=
+  Total.Otl.classdefReadOld_not_linear
 
-/-- With the offered repair (patches/C02/03: reject end < start) the bound is linear plus the cap. -/
-theorem C02_classdef_repaired_cost (b : Bytes) (pos : Nat) (r : List (Nat × Nat)) (c : Cost)
-    (h : Total.Otl.classdefReadFixed b pos = .ok (r, c)) : c.steps ≤ b.length / 2 + 65538 ∧ c.alloc ≤ 65537 :=
-  Total.Otl.classdefReadFixed_cost b pos r c h
+/-- The true bound of the unrepaired reader: (number of ranges) × 65536. -/
+theorem C02_classdef_unrepaired_cost (b : Bytes) (pos : Nat) (r : List (Nat × Nat)) (c : Cost)
+    (h : Total.Otl.classdefReadOld b pos = .ok (r, c)) :
+    c.steps ≤ b.length / 6 * 65537 + b.length / 2 + 2 ∧ c.alloc ≤ b.length / 6 * 65536 + b.length / 2 + 1 :=
+  Total.Otl.classdefReadOld_cost b pos r c h
 
 /-- Bridges to C08's value-level models (Model/OtlCoverage.lean, OtlClassDef.lean). -/
 theorem C02_otl_agree (b : Bytes) (pos : Nat) :
